@@ -387,6 +387,9 @@ def run(report, p):
             vcalls = [gg.node_for(c) for c, tg in p.calls[cf.qual] if v.qual in tg]
             r6.check(any(gg.dominates(vn, gg.node_for(call)) for vn in vcalls), cf, call, "the manifest writer is called without the validator having run")
 
+    from .common import include_rules
+
+    include_rules(report, p, 'c15', ['R15.1'], 'a file that is published half-written (also when the run ends with an error) is not even well-formed')
     report.not_decided += ["the author e-mail pattern (user input)", "lexical validity of dates for all clock values", "identity constraints / substitution groups (none are used by these XSDs; checked at load)"]
     report.extra["manifest_template"] = mdoc.show()[:4000]
     report.extra["chain_template"] = cdoc.show()[:1500]
